@@ -1,3 +1,4 @@
+import MdsVerif.Gen.Edit
 /-!
 # Executable model of `slice/edit.go` (core Lean only)
 
@@ -22,6 +23,16 @@ Every Go index expression that could be out of range is an `Option` read here;
 `none` is Go's `panic: index out of range`.  That it never happens is a theorem
 (`Props.C11.editScript_total`), not an assumption.
 
+## Regenerated facts
+
+This file fixes the control flow only.  The guards, the cell choices of the recurrence, the index
+expressions and the case analyses are definitions of `MdsVerif.Gen.Edit`, which `extract/edit.go`
+regenerates from slice/edit.go on every run (DESIGN.md §3.1); `Proofs.Lcs` / `Proofs.EditScript` restate
+every function below with the pinned expressions written out (`fillRow_cons`, `collect_node`,
+`lcsCore?_def`, `lcsFunc?_def`, `gapEdits_def`, `tailEdits_eq`, `scriptLoop_cons`, `dropSingleEmit_def`) and
+`Props.C11.C11_current` pins every fact.  Positions are represented by list suffixes, so the facts about
+loop bounds and the indices of the `eq` calls are not used here; they are tied by `C11_current` alone.
+
 ## API for other models (mdiff, C13/C14)
 
 `EditOp`, `Edit`, `editScript : List α → List α → List (Edit α)` (over
@@ -34,9 +45,14 @@ inductive EditOp where
   | drop | emit | copy | replace
 deriving DecidableEq, Repr, Inhabited
 
-/-- the opcode byte, as printed by the harness -/
-def EditOp.char : EditOp → Char
-  | .drop => '-' | .emit => '=' | .copy => '+' | .replace => '!'
+def EditOp.toGen : EditOp → Gen.Edit.Op
+  | .drop => .drop | .emit => .emit | .copy => .copy | .replace => .replace
+
+def EditOp.ofGen : Gen.Edit.Op → EditOp
+  | .drop => .drop | .emit => .emit | .copy => .copy | .replace => .replace
+
+/-- the opcode byte (the `EditOp` constants of edit.go), as printed by the harness -/
+def EditOp.char (op : EditOp) : Char := Char.ofNat (Gen.Edit.opByte op.toGen)
 
 /-- `type Edit[T] struct { Op EditOp; X, Y []T }` -/
 structure Edit (α : Type) where
@@ -59,14 +75,22 @@ def Seq.n : Seq → Nat
   | .zero => 0
   | .node _ n _ => n
 
+/-- the cell an expression `p[i-1]` / `c[i-1]` / `p[i]` of the recurrence denotes -/
+def pickCell (pprev cprev pi : Seq) : Gen.Edit.Cell → Seq
+  | .pPrev => pprev | .cPrev => cprev | .pCur => pi
+
 /-- The inner loop `for i := 1; i <= len(as); i++` from column `i` on: the arguments are `i`,
-`as[i-1:]`, `p[i:]`, `p[i-1]`, `c[i-1]`; the result is `c[i:]`. -/
+`as[i-1:]`, `p[i:]`, `p[i-1]`, `c[i-1]`; the result is `c[i:]`.  Which cell supplies the count and the
+`prev` pointer of a match, the tie-break test and what either outcome stores come from `Gen.Edit`. -/
 def fillRow (eq : α → α → Bool) (b : α) : Nat → List α → List Seq → Seq → Seq → List Seq
   | i, a :: as', pi :: ps, pprev, cprev =>
     let ci :=
-      if eq a b then Seq.node (i - 1) (pprev.n + 1) pprev
-      else if cprev.n ≥ pi.n then cprev
-      else pi
+      -- `c[i] = &seq{i - 1, p[i-1].n + 1, p[i-1]}`
+      if eq a b then Seq.node (Gen.Edit.matchI i) (Gen.Edit.matchCount pprev.n cprev.n pi.n)
+        (pickCell pprev cprev pi Gen.Edit.matchPrev)
+      -- `else if c[i-1].n >= p[i].n { c[i] = c[i-1] } else { c[i] = p[i] }`
+      else if Gen.Edit.tieTest pprev.n cprev.n pi.n then pickCell pprev cprev pi Gen.Edit.tieThen
+      else pickCell pprev cprev pi Gen.Edit.tieElse
     ci :: fillRow eq b (i + 1) as' ps pi ci
   | _, _, _, _, _ => []
 
@@ -86,11 +110,12 @@ def lcsRows (eq : α → α → Bool) (as : List α) : List α → List Seq × L
   | [], pc => pc
   | b :: bs, pc => lcsRows eq as bs (rowStep eq as b pc)
 
-/-- `for p := c[len(as)]; p.n > 0; p = p.prev { out = append(out, as[p.i]) }` -/
+/-- `for p := c[len(as)]; p.n > 0; p = p.prev { out = append(out, as[p.i]) }`.  The sentinel has
+`n = 0` and `prev = nil`: a walk test that lets it through dereferences nil (`none`). -/
 def collect (as : List α) : Seq → Option (List α)
-  | .zero => some []
+  | .zero => if Gen.Edit.walkGoes 0 then none else some []
   | .node i n prev =>
-    if n > 0 then do
+    if Gen.Edit.walkGoes n then do
       let a ← as[i]?
       let r ← collect as prev
       pure (a :: r)
@@ -98,22 +123,25 @@ def collect (as : List α) : Seq → Option (List α)
 
 /-- `LCSFunc` after the guard and the swap (`len(as) ≤ len(bs)`): buffers, row loop, walk, reverse. -/
 def lcsCore? (eq : α → α → Bool) (as bs : List α) : Option (List α) :=
-  let zeros := List.replicate (as.length + 1) Seq.zero
-  let pc := lcsRows eq as bs (zeros, zeros)
+  -- `p := make([]*seq, len(as)+1); c := make([]*seq, len(as)+1)`, all cells the sentinel
+  let pc := lcsRows eq as bs (List.replicate (Gen.Edit.pBufLen as.length) Seq.zero,
+    List.replicate (Gen.Edit.cBufLen as.length) Seq.zero)
   do
-    let last ← pc.2[as.length]?
+    let last ← pc.2[Gen.Edit.lastIdx as.length]?
     let out ← collect as last
-    pure out.reverse
+    -- `slices.Reverse(out)`
+    pure (if Gen.Edit.reverses then out.reverse else out)
 
 /-- `LCSFunc(as, bs, eq)`; `none` = index out of range. -/
 def lcsFunc? (eq : α → α → Bool) (as bs : List α) : Option (List α) :=
-  if as.length = 0 ∨ bs.length = 0 then some []
+  -- if len(as) == 0 || len(bs) == 0 { return nil }
+  if Gen.Edit.lcsNil as.length bs.length then some []
   -- if len(bs) < len(as) { as, bs = bs, as }
-  else if bs.length < as.length then lcsCore? eq bs as
+  else if Gen.Edit.lcsSwaps as.length bs.length then lcsCore? eq bs as
   else lcsCore? eq as bs
 
 /-- `LCSFunc` returns `nil` (not an empty non-nil slice) exactly on the first guard. -/
-def lcsIsNil (as bs : List α) : Bool := as.length = 0 ∨ bs.length = 0
+def lcsIsNil (as bs : List α) : Bool := Gen.Edit.lcsNil as.length bs.length
 
 /-! ## editScriptFunc -/
 
@@ -130,13 +158,28 @@ def scanTo (eq : α → α → Bool) (x : α) : List α → Option (List α × L
 if lend > lpos && rend > rpos { Replace X Y; rpos = rend } else if lend > lpos { Drop X }
 if rend > rpos { Copy Y }
 ```
-with `dl = lhs[lpos:lend]`, `dr = rhs[rpos:rend]` (also the tail handling after the loop). -/
+with `dl = lhs[lpos:lend]`, `dr = rhs[rpos:rend]`; positions are relative to the gap (`lpos = rpos = 0`,
+`lend = len dl`, `rend = len dr`).  The three tests and the new `rpos` are parameters: the gap inside the
+loop and the trailing gap after it are separate statements of edit.go. -/
+def gapEditsWith (tReplace tDrop tCopy : Int → Int → Int → Int → Bool) (newRpos : Int → Int → Int → Int → Int)
+    (dl dr : List α) : List (Edit α) :=
+  let lpos : Int := 0
+  let lend : Int := dl.length
+  let rpos : Int := 0
+  let rend : Int := dr.length
+  let (out, rpos) :=
+    if tReplace lpos lend rpos rend then ([Edit.mk .replace dl dr], newRpos lpos lend rpos rend)
+    else if tDrop lpos lend rpos rend then ([Edit.mk .drop dl []], rpos)
+    else ([], rpos)
+  if tCopy lpos lend rpos rend then out ++ [Edit.mk .copy [] (dr.drop rpos.toNat)] else out
+
+/-- the gap before the next LCS element (inside the loop) -/
 def gapEdits (dl dr : List α) : List (Edit α) :=
-  let (out, dr') :=
-    if dl.length > 0 ∧ dr.length > 0 then ([Edit.mk .replace dl dr], ([] : List α))
-    else if dl.length > 0 then ([Edit.mk .drop dl []], dr)
-    else ([], dr)
-  if dr'.length > 0 then out ++ [Edit.mk .copy [] dr'] else out
+  gapEditsWith Gen.Edit.gapReplace Gen.Edit.gapDrop Gen.Edit.gapCopy Gen.Edit.gapReplaceRpos dl dr
+
+/-- the trailing gap (after the loop): `len(lhs) > lpos && len(rhs) > rpos`, … -/
+def tailEdits (dl dr : List α) : List (Edit α) :=
+  gapEditsWith Gen.Edit.tailReplace Gen.Edit.tailDrop Gen.Edit.tailCopy Gen.Edit.tailReplaceRpos dl dr
 
 /-- `for i+m < len(lcs) && eq(lhs[lpos+m], rhs[rpos+m]) { m++ }`, counted from `m = 1`:
 arguments `lhs[lpos+m:]`, `rhs[rpos+m:]`, `lcs[i+m:]`; result = the number of increments. -/
@@ -149,20 +192,28 @@ def runLen (eq : α → α → Bool) : List α → List α → List α → Optio
 `lhs[lpos:]`, `rhs[rpos:]`, `lcs[i:]`; the first argument is fuel (`i` grows by `m ≥ 1`). -/
 def scriptLoop (eq : α → α → Bool) : Nat → List α → List α → List α → Option (List (Edit α))
   | 0, _, _, _ => none
-  | _ + 1, l, r, [] => some (gapEdits l r)
+  | _ + 1, l, r, [] => some (tailEdits l r)
   | f + 1, l, r, x :: c => do
     let (dl, l') ← scanTo eq x l
     let (dr, r') ← scanTo eq x r
-    let m1 ← runLen eq (l'.drop 1) (r'.drop 1) c
-    let m := 1 + m1
-    let rest ← scriptLoop eq f (l'.drop m) (r'.drop m) (c.drop m1)
-    pure (gapEdits dl dr ++ Edit.mk .emit (l'.take m) [] :: rest)
+    -- `m := 1; for i+m < len(lcs) && eq(lhs[lpos+m], rhs[rpos+m]) { m++ }`
+    let m0 := Gen.Edit.runFirst
+    let m1 ← runLen eq (l'.drop m0) (r'.drop m0) ((x :: c).drop m0)
+    let m := m0 + m1
+    -- `Edit[T]{Op: OpEmit, X: lhs[lpos : lpos+m]}`: which slice, which bounds (relative to its position)
+    let src := match Gen.Edit.emitFrom with
+      | .lhs => l' | .rhs => r' | .lcs => x :: c
+    let X := (src.drop (Gen.Edit.emitLo 0 m)).take (Gen.Edit.emitHi 0 m - Gen.Edit.emitLo 0 m)
+    let rest ← scriptLoop eq f (l'.drop m) (r'.drop m) ((x :: c).drop m)
+    pure (gapEdits dl dr ++ Edit.mk .emit X [] :: rest)
 
 /-- `if len(out) == 1 && out[0].Op == OpEmit { return nil }` -/
 def dropSingleEmit (out : List (Edit α)) : List (Edit α) :=
-  match out with
-  | [e] => if e.op = .emit then [] else out
-  | _ => out
+  if Gen.Edit.singleLen out.length then
+    match out with
+    | e :: _ => if e.op = EditOp.ofGen Gen.Edit.singleOp then [] else out
+    | [] => out
+  else out
 
 /-- the script before the single-emit special case -/
 def rawScript? (eq : α → α → Bool) (lhs rhs : List α) : Option (List (Edit α)) := do
